@@ -17,6 +17,13 @@ needed, not even the absence of duplicates); `C16_walk_eq_subperiods` and
 level of `Holder.set_input` / `Simulation.calculate_add`.
 Exact values (`VKind.num`, DESIGN section 4) unless said otherwise; `int`-typed variables truncate
 each share (finding F-C16c), see `C16_divide_conserves_int_partial`.
+
+Round 2 (last section): the week family (`C16_walk_week_family`, a day variable given weeks included);
+the loops as the code writes them, with `holder._set` (`C16_loops_with_set`); conservation along EVERY
+history of inputs (`C16_every_history_conserves`, `…_then_add`), situation documents in any key order
+(`C16_document_conserves`; the builder's sort is in the model: `builderFeed`), the long input given twice,
+inputs on nested periods after the long one, the exact refusals of `Holder.set_input`, and `calculate`
+piece by piece (`C16_add_is_sum_of_calculate`).
 -/
 namespace OFCore
 
@@ -270,53 +277,8 @@ example : ∃ t, divideOn .int [] exMonths [100] = .ok t ∧ sumOver 1 t exMonth
 
 /-- the store stays well formed along any history of `set_input` calls (all rules, all value types) -/
 theorem C16_store_wellformed (var : VarSpec) (s t : Store) (p : Period) (v : Vec) (hwf : WF var.count s)
-    (h : setInput var s p v = .ok t) : WF var.count t := by
-  by_cases hn : var.neutralized = true
-  · unfold setInput at h
-    simp only [hn, if_true] at h
-    split at h
-    · cases h
-    · injection h with h; subst h; exact hwf
-  have hn : var.neutralized = false := by simpa using hn
-  cases hr : var.rule with
-  | dispatch =>
-    obtain ⟨hl, _, subs, _, rfl⟩ := setInput_dispatch_inv hr hn h
-    exact filled_wf (dispatchOn_filled s subs _) hwf (by rw [castVec_length, hl])
-  | divide =>
-    obtain ⟨hl, _, subs, _, hd⟩ := setInput_divide_inv hr hn h
-    have hcl : (castVec var.kind v).length = var.count := by rw [castVec_length, hl]
-    obtain ⟨h1, _, _⟩ := tally_spec s subs (castVec var.kind v) (hcl ▸ hwf)
-    unfold divideOn at hd
-    simp only at hd
-    split at hd
-    · injection hd with hd; subst hd
-      exact filled_wf (dispatchOn_filled s subs _) hwf (by rw [castVec_length, vdivn_length, h1, hcl])
-    · split at hd
-      · injection hd with hd; subst hd; exact hwf
-      · cases hd
-  | absent =>
-    unfold setInput at h
-    simp only [hn, Bool.false_eq_true, if_false] at h
-    split at h
-    · cases h
-    · rw [hr] at h
-      simp only [holderSet, toArray] at h
-      by_cases hl : v.length ≠ var.count
-      · rw [if_pos hl] at h; cases h
-      · rw [if_neg hl] at h
-        have hcl : (castVec var.kind v).length = var.count := by rw [castVec_length]; simpa using hl
-        have key : ∀ k, WF var.count (sput s k (castVec var.kind v)) := by
-          intro k q w hq
-          rw [sget_sput] at hq
-          split at hq
-          · injection hq with hq; rw [← hq]; exact hcl
-          · exact hwf q w hq
-        simp only [bind, Except.bind] at h
-        split at h
-        · split at h
-          · cases h
-          · injection h with h; subst h; exact key _
-        · injection h with h; subst h; exact key _
+    (h : setInput var s p v = .ok t) : WF var.count t :=
+  setInput_wf hwf h
 
 example : ∃ t, setInput (exVar .divide) exStore exYear [27, 30] = .ok t ∧ WF 2 t := by
   have h : ∃ t, setInput (exVar .divide) exStore exYear [27, 30] = .ok t := ⟨_, ok_of_isOk (by decide +kernel)⟩
@@ -640,5 +602,346 @@ example : simSetInput { exVar .divide with endDate := some ⟨2018, 6, 30⟩ } [
     simSetInput { exVar .divide with endDate := some ⟨2017, 12, 31⟩ } exStore exYear [24, 36] = .ok exStore ∧
     isOk (setInput (exVar .divide) [] exYear [24, 36]) = true := by
   decide +kernel
+
+/-! ## round 2 — the week family, whole histories, documents, second calls, `calculate` by hand -/
+
+/-- week `k` (Monday 31 December 2018 + 7k days) -/
+def exWeeks2 : Period := ⟨.week, ⟨2018, 12, 31⟩, 2⟩
+/-- a week that starts on a Wednesday -/
+def exWedWeek : Period := ⟨.week, ⟨2019, 1, 2⟩, 1⟩
+def exDayVar : VarSpec := { defUnit := .day, rule := .divide, kind := .num, count := 1 }
+
+/-! ### the calendar part, week family -/
+
+/-- **tiling, week family.** A week variable given `week:…:n` (any first day), a weekday variable or a
+DAY variable given a week / weekday / day period: the walk of `set_input` succeeds and enumerates
+consecutive pieces of one definition period each that cover exactly the days of the period — `n`
+weeks, or `7n` (resp. `n`) days. -/
+theorem C16_walk_week_family (p : Period) (defU : DUnit) (h : WeekDomain p defU) :
+    ∃ qs, walk defU p = .ok qs ∧ qs.length = pieceCountW p defU ∧ qs ≠ [] ∧
+      (∀ q, q ∈ qs → q.unit = defU ∧ q.size = 1) ∧ Tiles qs p.lo p.hi ∧ qs = piecesW p defU :=
+  walk_tiles_week p defU h
+
+example : WeekDomain exWeeks2 .week ∧ pieceCountW exWeeks2 .week = 2 ∧ WeekDomain exWedWeek .day ∧
+    pieceCountW exWedWeek .day = 7 ∧ WeekDomain exWeeks2 .weekday ∧ pieceCountW exWeeks2 .weekday = 14 := by decide
+
+/-- … and these are the pieces `calculate_add` sums — for a week variable only when the period starts
+on a Monday (`get_subperiods` counts ISO weeks from `first_week`; a week variable given a period that
+starts mid-week is summed over OTHER weeks than the ones `set_input` filled: mirrored by the model,
+outside the statement, which speaks of day-, month- and year-defined variables) -/
+theorem C16_walk_eq_get_subperiods_weeks (p : Period) (defU : DUnit) (h : WeekDomain p defU)
+    (hal : AlignedW p defU) : walk defU p = p.subperiods defU :=
+  walk_eq_subperiodsW p defU h hal
+
+example : AlignedW exWeeks2 .week ∧ ¬ AlignedW exWedWeek .week ∧ AlignedW exWedWeek .day ∧
+    walk .day exWedWeek = exWedWeek.subperiods .day ∧ walk .week exWedWeek ≠ exWedWeek.subperiods .week := by
+  decide +kernel
+
+/-! ### the loops as the code writes them -/
+
+/-- **`holder._set` inside the loops.** Both helpers write every unknown piece with `holder._set`, which
+converts the array to the variable's dtype AGAIN and checks the period. On the pieces of ANY walk (every
+input period, every definition unit) the check cannot fire and the loop with `_set` is the pure loop
+`dispatchOn` of the model applied to the converted vector — for `divide` on an `int` variable that second
+conversion is the truncation of the share. -/
+theorem C16_loops_with_set (var : VarSpec) (hn : var.neutralized = false) (he : var.defUnit ≠ .eternity)
+    (p : Period) (subs : List Period) (hw : walk var.defUnit p = .ok subs) (w : Vec) (hl : w.length = var.count)
+    (s : Store) : fillLoop var w s subs = .ok (dispatchOn s subs (castVec var.kind w)) :=
+  fillLoop_eq hn he w hl subs (walk_units hw) s
+
+example : fillLoop (exVar .divide) [7/2, 4] exStore exMonths = .ok (dispatchOn exStore exMonths [7/2, 4]) ∧
+    fillLoop { exVar .divide with kind := .int } [7/2, 4] exStore exMonths = .ok (dispatchOn exStore exMonths [3, 4]) := by
+  decide +kernel
+
+/-! ### every history -/
+
+/-- **conservation along EVERY history.** Whatever inputs a divide variable (exact values) receives through
+`Simulation.set_input`, in whatever order — pieces, long periods, overlapping, enclosing or repeated
+ones, before or after each other —: if the whole history is accepted, then at its end the pieces of
+EVERY input that the `end` test did not drop are all known and still sum, entity by entity, to the
+amount of that input. No hypothesis on the order, on nesting, or on the calendar. -/
+theorem C16_every_history_conserves (var : VarSpec) (hr : var.rule = .divide) (hk : var.kind = .num)
+    (hn : var.neutralized = false) (calls : List (Period × Vec)) (s t : Store) (hwf : WF var.count s)
+    (h : feedAll var s calls = .ok t) (p : Period) (v : Vec) (hm : (p, v) ∈ calls) (hlive : Live var p) :
+    ∃ subs, walk var.defUnit p = .ok subs ∧ v.length = var.count ∧ (∀ q, q ∈ subs → sget t q ≠ none) ∧
+      ∀ i, knownSum t subs i = ent v i :=
+  feedAll_conserves hr hk hn hwf h hm hlive
+
+/-- … hence `calculate_add` over the period of ANY input of an accepted history returns its amount and
+leaves the store as it is (day / month / year family, aligned periods) -/
+theorem C16_every_history_then_add (var : VarSpec) (hr : var.rule = .divide) (hk : var.kind = .num)
+    (hn : var.neutralized = false) (calls : List (Period × Vec)) (s t : Store) (hwf : WF var.count s)
+    (h : feedAll var s calls = .ok t) (p : Period) (v : Vec) (hm : (p, v) ∈ calls) (hlive : Live var p)
+    (hd : WalkDomain p var.defUnit) (hal : Aligned p var.defUnit) : calcAdd var t p = .ok (some v, t) := by
+  obtain ⟨subs, hw, hl, hkn, hsum⟩ := feedAll_conserves hr hk hn hwf h hm hlive
+  exact calcAdd_of_known hn (feedAll_wf hwf h) hd hal hw hl hkn hsum
+
+example : ∃ t, feedAll (exVar .divide) exStore
+      [(exYear, [27, 30]), (exMonth 7, [2, 2]), (⟨.year, ⟨2018, 7, 1⟩, 1⟩, [48, 60]), (exYear, [27, 30])] = .ok t ∧
+    Live (exVar .divide) exYear ∧ calcAdd (exVar .divide) t exYear = .ok (some [27, 30], t) ∧
+    calcAdd (exVar .divide) t ⟨.year, ⟨2018, 7, 1⟩, 1⟩ = .ok (some [48, 60], t) :=
+  ⟨_, ok_of_isOk (by decide +kernel), by decide, by decide +kernel, by decide +kernel⟩
+
+/-- the same for the week family (a day variable given weeks, a week variable given Monday weeks) -/
+theorem C16_every_history_then_add_weeks (var : VarSpec) (hr : var.rule = .divide) (hk : var.kind = .num)
+    (hn : var.neutralized = false) (calls : List (Period × Vec)) (s t : Store) (hwf : WF var.count s)
+    (h : feedAll var s calls = .ok t) (p : Period) (v : Vec) (hm : (p, v) ∈ calls) (hlive : Live var p)
+    (hd : WeekDomain p var.defUnit) (hal : AlignedW p var.defUnit) : calcAdd var t p = .ok (some v, t) := by
+  obtain ⟨subs, hw, hl, hkn, hsum⟩ := feedAll_conserves hr hk hn hwf h hm hlive
+  obtain ⟨qs, hw', _, hne, _, _, _⟩ := walk_tiles_week p var.defUnit hd
+  have hsub : p.subperiods var.defUnit = .ok subs := by rw [← walk_eq_subperiodsW p var.defUnit hd hal, hw]
+  have hsubs_ne : subs.isEmpty = false := by
+    rw [hw] at hw'; injection hw' with e; subst e
+    cases subs with
+    | nil => exact absurd rfl hne
+    | cons _ _ => rfl
+  have hweight : ¬ (unitWeight var.defUnit > unitWeight p.unit) := by
+    obtain ⟨_, _, _, ⟨h1, h2⟩ | ⟨h1 | h1, h2 | h2 | h2⟩⟩ := hd <;> rw [h1, h2] <;> decide
+  have hpu : ¬ (p.unit = .eternity) := by
+    obtain ⟨_, _, _, ⟨_, h2⟩ | ⟨_, h2 | h2 | h2⟩⟩ := hd <;> rw [h2] <;> decide
+  have he : ¬ (var.defUnit = .eternity) := by
+    obtain ⟨_, _, _, ⟨h1, _⟩ | ⟨h1 | h1, _⟩⟩ := hd <;> rw [h1] <;> decide
+  have hs := sumOver_all_known (feedAll_wf hwf h) hkn hl hsum
+  simp only [calcAdd, if_neg hweight, if_neg he, if_neg hpu, hsub, bind, Except.bind, hsubs_ne, hs, hn,
+    Bool.false_eq_true, if_false]
+
+example : ∃ t, feedAll exDayVar [] [(⟨.day, ⟨2019, 1, 3⟩, 1⟩, [2]), (exWedWeek, [14])] = .ok t ∧
+    WeekDomain exWedWeek .day ∧ calcAdd exDayVar t exWedWeek = .ok (some [14], t) ∧
+    sget t ⟨.day, ⟨2019, 1, 8⟩, 1⟩ = some [2] :=
+  ⟨_, ok_of_isOk (by decide +kernel), by decide, by decide +kernel, by decide +kernel⟩
+
+/-! ### situation documents -/
+
+/-- **the order of the keys of a situation document is irrelevant to conservation.** The builder consumes
+the buffered inputs of a variable in non-decreasing `(size in days, unit weight)` order — a rearrangement of
+the document, whatever the order its keys were written in (year before, after or between its months) —
+and if the construction succeeds, the pieces of EVERY entry the `end` test did not drop sum to that
+entry's amount. The short form (`build_from_variables`) consumes the document in the order written
+(`feedAll`): the same conclusion holds by `C16_every_history_conserves`, but a year written before one of
+its months is then refused unless the month repeats its share (see the example). -/
+theorem C16_document_conserves (var : VarSpec) (hr : var.rule = .divide) (hk : var.kind = .num)
+    (hn : var.neutralized = false) (doc : List (Period × Vec)) (s t : Store) (hwf : WF var.count s)
+    (h : builderFeed var s doc = .ok t) :
+    (∃ ks, keyAll doc = .ok ks ∧ KeySorted (sortKeyed ks) ∧
+      (∀ pv, pv ∈ (sortKeyed ks).map (·.2) ↔ pv ∈ doc) ∧ ((sortKeyed ks).map (·.2)).length = doc.length ∧
+      feedAll var s ((sortKeyed ks).map (·.2)) = .ok t) ∧
+    ∀ p v, (p, v) ∈ doc → Live var p →
+      ∃ subs, walk var.defUnit p = .ok subs ∧ (∀ q, q ∈ subs → sget t q ≠ none) ∧
+        ∀ i, knownSum t subs i = ent v i := by
+  obtain ⟨ks, hk1, hf, hmem, hsorted, hlen⟩ := builderFeed_inv h
+  refine ⟨⟨ks, hk1, hsorted, hmem, hlen, hf⟩, ?_⟩
+  intro p v hm hlive
+  obtain ⟨subs, hw, _, hkn, hsum⟩ := feedAll_conserves hr hk hn hwf hf ((hmem (p, v)).mpr hm) hlive
+  exact ⟨subs, hw, hkn, hsum⟩
+
+example : ∃ t, builderFeed (exVar .divide) [] [(exYear, [27, 30]), (exMonth 2, [5, 8])] = .ok t ∧
+    builderFeed (exVar .divide) [] [(exMonth 2, [5, 8]), (exYear, [27, 30])] = .ok t ∧
+    sget t (exMonth 2) = some [5, 8] ∧ sget t (exMonth 3) = some [2, 2] ∧
+    isOk (feedAll (exVar .divide) [] [(exYear, [27, 30]), (exMonth 2, [5, 8])]) = false ∧
+    isOk (feedAll (exVar .divide) [] [(exMonth 2, [5, 8]), (exYear, [27, 30])]) = true :=
+  ⟨_, ok_of_isOk (by decide +kernel), by decide +kernel, by decide +kernel, by decide +kernel, by decide +kernel,
+    by decide +kernel⟩
+
+/-- **small periods first.** In the order in which `finalize_variables_init` consumes a document, nothing
+that comes after an entry has a smaller `(size in days, unit weight)` key: a month is consumed before the
+year that contains it, a quarter before the year and after its months, `month:…:12` before the year with
+the same days — wherever they stand in the document. -/
+theorem C16_document_shortest_first (doc : List (Period × Vec)) (ks : List Keyed) (hk : keyAll doc = .ok ks)
+    (A : List Keyed) (y : Keyed) (B : List Keyed) (hs : sortKeyed ks = A ++ y :: B) :
+    (∀ x, x ∈ B → keyLe y.1 x.1 = true) ∧ feedKey y.2.1 = .ok y.1 := by
+  refine ⟨keySorted_after A y B (hs ▸ keySorted_sort ks), ?_⟩
+  have hy : y ∈ ks := (mem_sortKeyed y ks).mp (by rw [hs]; simp)
+  exact (keyAll_spec hk).2 y hy
+
+example : (keyAll [(exYear, [27, 30]), (exMonth 2, [5, 8]), (⟨.month, ⟨2018, 1, 1⟩, 3⟩, [9, 12])]).map
+      (fun ks => (sortKeyed ks).map (fun x => x.2.1)) =
+    .ok [exMonth 2, ⟨.month, ⟨2018, 1, 1⟩, 3⟩, exYear] := by decide +kernel
+
+/-! ### second calls -/
+
+/-- **the long input given again.** After an accepted input `a` on the pieces `subs`: the same input
+again is accepted and changes nothing; any other amount (of the right length) is refused. -/
+theorem C16_divide_twice (s t : Store) (subs : List Period) (a : Vec) (hwf : WF a.length s)
+    (h : divideOn .num s subs a = .ok t) :
+    divideOn .num t subs a = .ok t ∧
+    ∀ b : Vec, b.length = a.length → b ≠ a → ∃ e, divideOn .num t subs b = .error e := by
+  obtain ⟨c, hcl, hf, _, _⟩ := divideOn_ok_spec hwf h
+  have hwt : WF a.length t := filled_wf hf hwf hcl
+  have hu : unknownCount t subs = 0 := (unknownCount_zero_iff t subs).mpr (fun q hq => filled_known hf q hq)
+  have hsum := C16_divide_conserves s t subs a hwf h
+  refine ⟨(C16_divide_inconsistent_err .num t subs a hwt).2.1 hu (fun i _ => (hsum i).symm), ?_⟩
+  intro b hbl hne
+  have hwt' : WF b.length t := hbl ▸ hwt
+  apply (divideOn_error_iff .num hwt').mpr
+  refine ⟨hu, ?_⟩
+  by_contra hcon
+  apply hne
+  apply vec_ext hbl
+  intro i hi
+  by_contra hd
+  exact hcon ⟨i, hi, by rw [hsum i]; exact hd⟩
+
+example : ∃ t, divideOn .num exStore exMonths [27, 30] = .ok t ∧ divideOn .num t exMonths [27, 30] = .ok t ∧
+    ∃ e, divideOn .num t exMonths [27, 31] = .error e :=
+  ⟨_, rfl, by decide +kernel, "inconsistent", by decide +kernel⟩
+
+/-- **divide after divide on nested periods.** After an accepted long input, an input on pieces inside it
+(one of its months, a quarter, the period itself) finds everything known: it is accepted exactly when
+its amount repeats what is stored — and then changes nothing. -/
+theorem C16_divide_nested_after (s t : Store) (subs : List Period) (a : Vec) (hwf : WF a.length s)
+    (h : divideOn .num s subs a = .ok t) (l : List Period) (hin : ∀ q, q ∈ l → q ∈ subs) (x : Vec)
+    (hxl : x.length = a.length) :
+    ((∀ i, i < x.length → ent x i = knownSum t l i) → divideOn .num t l x = .ok t) ∧
+    ((∃ i, i < x.length ∧ ent x i ≠ knownSum t l i) → ∃ e, divideOn .num t l x = .error e) := by
+  obtain ⟨c, hcl, hf, _, _⟩ := divideOn_ok_spec hwf h
+  have hwt : WF x.length t := hxl ▸ filled_wf hf hwf hcl
+  have hu : unknownCount t l = 0 :=
+    (unknownCount_zero_iff t l).mpr (fun q hq => filled_known hf q (hin q hq))
+  exact ⟨fun hall => (C16_divide_inconsistent_err .num t l x hwt).2.1 hu hall,
+    fun hex => (divideOn_error_iff .num hwt).mpr ⟨hu, hex⟩⟩
+
+example : ∃ t, divideOn .num exStore exMonths [27, 30] = .ok t ∧ divideOn .num t [exMonth 7] [2, 2] = .ok t ∧
+    divideOn .num t [exMonth 2, exMonth 3] [7, 10] = .ok t ∧ ∃ e, divideOn .num t [exMonth 7] [2, 3] = .error e :=
+  ⟨_, rfl, by decide +kernel, by decide +kernel, "inconsistent", by decide +kernel⟩
+
+/-- **the refusals of `Holder.set_input` on a divide variable are exactly these**: a vector of the wrong
+length, or every piece of the period already set and, for some entity, a total that differs from the
+amount (after conversion to the variable's type). On the claim domain nothing else is refused. -/
+theorem C16_set_input_divide_refusal_iff (var : VarSpec) (s : Store) (p : Period) (v : Vec)
+    (hr : var.rule = .divide) (hn : var.neutralized = false) (hwf : WF var.count s)
+    (hd : WalkDomain p var.defUnit ∨ WeekDomain p var.defUnit) :
+    (∃ e, setInput var s p v = .error e) ↔
+      v.length ≠ var.count ∨
+      ∃ subs, walk var.defUnit p = .ok subs ∧ unknownCount s subs = 0 ∧
+        ∃ i, i < var.count ∧ ent (castVec var.kind v) i ≠ knownSum s subs i := by
+  have hwalk : ∃ subs, walk var.defUnit p = .ok subs := by
+    rcases hd with hd | hd
+    · obtain ⟨qs, hw, _⟩ := walk_tiles p var.defUnit hd; exact ⟨qs, hw⟩
+    · obtain ⟨qs, hw, _⟩ := walk_tiles_week p var.defUnit hd; exact ⟨qs, hw⟩
+  obtain ⟨subs, hw⟩ := hwalk
+  have he : var.defUnit ≠ .eternity := by
+    rcases hd with hd | hd
+    · obtain ⟨_, _, _, h | h | h⟩ := hd <;> rw [h.1] <;> decide
+    · obtain ⟨_, _, _, ⟨h1, _⟩ | ⟨h1 | h1, _⟩⟩ := hd <;> rw [h1] <;> decide
+  have hp : p.unit ≠ .eternity := by
+    rcases hd with hd | hd
+    · obtain ⟨_, _, _, ⟨_, h | h | h⟩ | ⟨_, h | h, _⟩ | ⟨_, h, _⟩⟩ := hd <;> rw [h] <;> decide
+    · obtain ⟨_, _, _, ⟨_, h2⟩ | ⟨_, h2 | h2 | h2⟩⟩ := hd <;> rw [h2] <;> decide
+  by_cases hl : v.length = var.count
+  · rw [setInput_of_walk hl he hp hn hw, hr]
+    simp only
+    have hcl : (castVec var.kind v).length = var.count := by rw [castVec_length, hl]
+    rw [divideOn_error_iff var.kind (hcl ▸ hwf), hcl]
+    constructor
+    · rintro ⟨hu, hi⟩; exact Or.inr ⟨subs, hw, hu, hi⟩
+    · rintro (h | ⟨subs', hw', hu, hi⟩)
+      · exact absurd hl h
+      · rw [hw] at hw'; injection hw' with e; subst e; exact ⟨hu, hi⟩
+  · constructor
+    · intro _; exact Or.inl hl
+    · intro _; exact (C16_set_input_refusals var s p v hn).2.1 hl
+
+example : (∃ e, setInput (exVar .divide) exStore exYear [27] = .error e) ∧
+    WalkDomain exYear (exVar .divide).defUnit := ⟨⟨"length", by decide +kernel⟩, by decide⟩
+
+/-! ### the sum taken by hand -/
+
+/-- **`calculate` on every piece, added up by the caller, is `calculate_add`**: same total, same store
+afterwards (the pieces nobody set are cached with the default either way). With
+`C16_every_history_then_add` the hand-made sum over the period of any accepted input is its amount. -/
+theorem C16_add_is_sum_of_calculate (var : VarSpec) (hn : var.neutralized = false) (s : Store) (p : Period)
+    (hd : WalkDomain p var.defUnit) (hal : Aligned p var.defUnit) :
+    ∃ subs, p.subperiods var.defUnit = .ok subs ∧
+      calcAdd var s p = (calcEach var (vzero var.count, s) subs).map (fun r => (some r.1, r.2)) := by
+  obtain ⟨qs, hw, _, hne, hu, _, _⟩ := walk_tiles p var.defUnit hd
+  have hsub : p.subperiods var.defUnit = .ok qs := by rw [← walk_eq_subperiods p var.defUnit hd hal, hw]
+  have he : var.defUnit ≠ .eternity := by
+    obtain ⟨_, _, _, h | h | h⟩ := hd <;> rw [h.1] <;> decide
+  have hweight : ¬ (unitWeight var.defUnit > unitWeight p.unit) := by
+    obtain ⟨_, _, _, ⟨h1, h2 | h2 | h2⟩ | ⟨h1, h2 | h2, _⟩ | ⟨h1, h2, _⟩⟩ := hd <;> rw [h1, h2] <;> decide
+  have hpu : ¬ (p.unit = .eternity) := by
+    obtain ⟨_, _, _, ⟨_, h2 | h2 | h2⟩ | ⟨_, h2 | h2, _⟩ | ⟨_, h2, _⟩⟩ := hd <;> rw [h2] <;> decide
+  have hsubs_ne : qs.isEmpty = false := by
+    cases qs with
+    | nil => exact absurd rfl hne
+    | cons _ _ => rfl
+  refine ⟨qs, hsub, ?_⟩
+  rw [calcEach_eq_fold hn he qs hu]
+  simp only [calcAdd, if_neg hweight, if_neg he, if_neg hpu, hsub, bind, Except.bind, hsubs_ne, hn,
+    Bool.false_eq_true, if_false, sumOver, Except.map]
+
+example : calcEach (exVar .divide) (vzero 2, exStore) [exMonth 1, exMonth 2] =
+    .ok ([5, 8], [(exMonth 1, [0, 0]), (exMonth 2, [5, 8])]) := by decide +kernel
+
+/-! ### order, as a permutation statement over whole histories -/
+
+/-- **order independence, divide rule, ANY two orders.** For a family of inputs in which an input with
+fewer pieces lies inside or apart from one with more, and inputs with equally many pieces are on the same
+pieces or on disjoint ones (`StrictLaminar` — periods of one tiling family that do not overlap partially:
+months in quarters in years, days in months, a period given twice): two accepted histories made of the
+same inputs, one ANY permutation of the other, end in the same store. -/
+theorem C16_order_permutation (n : Nat) (calls1 calls2 : List (List Period × Vec)) (hp : calls2.Perm calls1)
+    (hlen : ∀ d, d ∈ calls1 → d.2.length = n) (hlam : StrictLaminar calls1)
+    (s t1 t2 : Store) (hwf : WF n s) (h1 : runDivide .num s calls1 = .ok t1)
+    (h2 : runDivide .num s calls2 = .ok t2) : SameStore t1 t2 :=
+  runDivide_perm calls1 calls2 hp hlen hlam s t1 t2 hwf h1 h2
+
+/-- the same at the level of `Simulation.set_input`: two accepted histories of inputs on a divide variable
+(exact values) that are permutations of each other leave the same values, provided the periods do not
+overlap partially -/
+theorem C16_history_order_permutation (var : VarSpec) (hr : var.rule = .divide) (hk : var.kind = .num)
+    (hn : var.neutralized = false) (calls1 calls2 : List (Period × Vec)) (hp : calls2.Perm calls1)
+    (hlive : ∀ pv, pv ∈ calls1 → Live var pv.1)
+    (hlam : StrictLaminar (calls1.map (fun pv => (piecesOf var pv.1, pv.2))))
+    (s t1 t2 : Store) (hwf : WF var.count s) (h1 : feedAll var s calls1 = .ok t1)
+    (h2 : feedAll var s calls2 = .ok t2) : SameStore t1 t2 := by
+  obtain ⟨r1, hl1⟩ := feedAll_runDivide hr hk hn hlive h1
+  obtain ⟨r2, _⟩ := feedAll_runDivide hr hk hn (fun pv hpv => hlive pv (hp.mem_iff.mp hpv)) h2
+  refine runDivide_perm _ _ (hp.map _) ?_ hlam s t1 t2 hwf r1 r2
+  intro d hd
+  obtain ⟨pv, hpv, rfl⟩ := List.mem_map.mp hd
+  exact hl1 pv hpv
+
+example :
+    let q1 : Period := ⟨.month, ⟨2018, 1, 1⟩, 3⟩
+    let c1 : List (Period × Vec) := [(exYear, [27, 30]), (exMonth 7, [2, 2]), (q1, [9, 12]), (exYear, [27, 30])]
+    let c2 : List (Period × Vec) := [(q1, [9, 12]), (exYear, [27, 30]), (exYear, [27, 30]), (exMonth 7, [2, 2])]
+    c2.Perm c1 ∧ StrictLaminar (c1.map (fun pv => (piecesOf (exVar .divide) pv.1, pv.2))) ∧
+      isOk (feedAll (exVar .divide) exStore c1) = true ∧ isOk (feedAll (exVar .divide) exStore c2) = true := by
+  refine ⟨?_, by decide +kernel, by decide +kernel, by decide +kernel⟩
+  decide
+
+/-- **every history, dispatch rule.** Along any accepted history of inputs on a dispatch variable a piece
+keeps the value it had before the history; a piece without value receives the (converted) value of the
+FIRST input whose period covers it; a piece no input covers stays unknown. Nothing is ever overwritten. -/
+theorem C16_every_history_dispatch (var : VarSpec) (hr : var.rule = .dispatch) (hn : var.neutralized = false)
+    (calls : List (Period × Vec)) (hlive : ∀ pv, pv ∈ calls → Live var pv.1) (s t : Store)
+    (h : feedAll var s calls = .ok t) (q : Period) :
+    sget t q =
+      match sget s q with
+      | some v => some v
+      | none => (calls.find? (fun pv => decide (q ∈ piecesOf var pv.1))).map (fun pv => castVec var.kind pv.2) := by
+  rw [feedAll_runDispatch hr hn hlive h, sget_runDispatch]
+  cases sget s q with
+  | some v => rfl
+  | none =>
+    simp only
+    have key : ∀ cs : List (Period × Vec),
+        ((cs.map (fun pv => (piecesOf var pv.1, castVec var.kind pv.2))).find? (fun lx => decide (q ∈ lx.1))).map (·.2) =
+          (cs.find? (fun pv => decide (q ∈ piecesOf var pv.1))).map (fun pv => castVec var.kind pv.2) := by
+      intro cs
+      induction cs with
+      | nil => rfl
+      | cons x xs ih =>
+        simp only [List.map_cons, List.find?_cons]
+        by_cases hq : q ∈ piecesOf var x.1
+        · simp [hq]
+        · simp only [hq, decide_false]
+          exact ih
+    exact key calls
+
+example : ∃ t, feedAll (exVar .dispatch) exStore [(⟨.month, ⟨2018, 1, 1⟩, 3⟩, [1, 1]), (exYear, [10, 10])] = .ok t ∧
+    sget t (exMonth 2) = some [5, 8] ∧ sget t (exMonth 3) = some [1, 1] ∧ sget t (exMonth 4) = some [10, 10] :=
+  ⟨_, ok_of_isOk (by decide +kernel), by decide +kernel, by decide +kernel, by decide +kernel⟩
 
 end OFCore
